@@ -67,6 +67,137 @@ fn in_order(hay: &str, frags: &[&str], what: &str) -> Result<(), String> {
     Ok(())
 }
 
+// ------------------------------------------------------------ token patterns
+//
+// Fragments with placeholders: `__P_name` stands for one identifier, the same one
+// wherever `__P_name` occurs in the fragments of one call. Local variable names
+// are then free to change (a consistent renaming does not change what the code
+// computes) while everything else is still compared token by token. A
+// placeholder never binds an identifier that a fragment spells out literally,
+// and two placeholders never bind the same identifier (so a renaming that
+// captures another variable is not accepted). A placeholder whose name ends in
+// `_S` is exempt from both rules: it is used where the code under translation may
+// shadow a name (`let ty = lower(ty)`), at binding sites whose scope ends with the
+// fragment, so that what it shadows cannot be meant later in the fragment.
+
+fn lex(s: &str) -> Vec<String> {
+    let cs: Vec<char> = s.chars().collect();
+    let mut out = vec![];
+    let mut i = 0;
+    while i < cs.len() {
+        let c = cs[i];
+        if c.is_whitespace() {
+            i += 1;
+        } else if c.is_alphanumeric() || c == '_' {
+            let st = i;
+            while i < cs.len() && (cs[i].is_alphanumeric() || cs[i] == '_') {
+                i += 1;
+            }
+            out.push(cs[st..i].iter().collect());
+        } else if c == '"' {
+            // a string literal is one token
+            let st = i;
+            i += 1;
+            while i < cs.len() && cs[i] != '"' {
+                if cs[i] == '\\' {
+                    i += 1;
+                }
+                i += 1;
+            }
+            i = (i + 1).min(cs.len());
+            out.push(cs[st..i].iter().collect());
+        } else {
+            out.push(c.to_string());
+            i += 1;
+        }
+    }
+    out
+}
+
+fn is_ident(t: &str) -> bool {
+    t.chars().next().is_some_and(|c| c.is_alphabetic() || c == '_') && t.chars().all(|c| c.is_alphanumeric() || c == '_')
+}
+
+/// Where `frag` (tokens, `$x` placeholders) matches `src` at position `at`,
+/// extending `binds`; `None` if it does not.
+fn match_at(src: &[String], at: usize, frag: &[String], binds: &[(String, String)], literals: &[String]) -> Option<Vec<(String, String)>> {
+    if at + frag.len() > src.len() {
+        return None;
+    }
+    let mut b = binds.to_vec();
+    for (k, f) in frag.iter().enumerate() {
+        let s = &src[at + k];
+        if let Some(name) = f.strip_prefix("__P_").filter(|n| !n.is_empty()) {
+            if !is_ident(s) {
+                return None;
+            }
+            match b.iter().find(|(n, _)| n == name) {
+                Some((_, v)) => {
+                    if v != s {
+                        return None;
+                    }
+                }
+                None => {
+                    let may_shadow = name.ends_with("_S");
+                    if (!may_shadow && (literals.contains(s) || b.iter().any(|(n, v)| v == s && !n.ends_with("_S")))) || matches!(s.as_str(), "self" | "Self" | "mut" | "let" | "in" | "for" | "if" | "else" | "match" | "return") {
+                        return None;
+                    }
+                    b.push((name.to_string(), s.clone()));
+                }
+            }
+        } else if f != s {
+            return None;
+        }
+    }
+    Some(b)
+}
+
+/// The fragments must each match exactly once (given the identifiers bound so
+/// far) and in this order.
+fn in_order_pat(src_text: &str, frags: &[&str], what: &str) -> Result<(), String> {
+    let src = lex(src_text);
+    let lexed: Vec<Vec<String>> = frags.iter().map(|f| lex(f)).collect();
+    let literals: Vec<String> = lexed.iter().flatten().filter(|t| is_ident(t) && !t.starts_with("__P_")).cloned().collect();
+    let mut binds: Vec<(String, String)> = vec![];
+    let mut last = 0usize;
+    for (f, fl) in frags.iter().zip(&lexed) {
+        let hits: Vec<(usize, Vec<(String, String)>)> =
+            (0..src.len()).filter_map(|at| match_at(&src, at, fl, &binds, &literals).map(|b| (at, b))).collect();
+        match &hits[..] {
+            [(at, b)] => {
+                if *at < last {
+                    return Err(format!("{what}: fragment `{f}` out of order"));
+                }
+                last = *at;
+                binds = b.clone();
+            }
+            _ => return Err(format!("{what}: expected exactly one occurrence of `{f}`, found {}", hits.len())),
+        }
+    }
+    Ok(())
+}
+
+
+/// Some list of fragments of `alts` must match (`in_order_pat`): equivalent spellings
+/// of the same code, each of which was checked by hand to compute the same thing.
+fn any_alt(src_text: &str, alts: &[Vec<String>], what: &str) -> Result<(), String> {
+    let mut first_err = None;
+    for a in alts {
+        let frags: Vec<&str> = a.iter().map(|s| s.as_str()).collect();
+        match in_order_pat(src_text, &frags, what) {
+            Ok(()) => return Ok(()),
+            Err(e) => {
+                first_err.get_or_insert(e);
+            }
+        }
+    }
+    Err(first_err.unwrap_or_else(|| format!("{what}: no alternative")))
+}
+
+fn text(t: &impl ToTokens) -> String {
+    t.to_token_stream().to_string()
+}
+
 // ------------------------------------------------------------ arithmetic subset
 
 /// Expression of the layout arithmetic as a Lean term.
@@ -475,16 +606,43 @@ fn boundary(repo: &Path) -> R {
             "Ty::Primitive(primitive)=>primitive.layout(),",
             "Ty::Runtime(type_id)=>{rt.get_runtime_type(*type_id).unwrap().layout()}",
             "Ty::Record(fields)=>{let mut builder=LayoutBuilder::new();for&(_,t)in fields{builder.add(&self.layout_of(t,rt)?);}builder.finish()}",
-            "Ty::Enum(variants)=>{let mut layout=None;for(_,fields)in variants{let mut builder=LayoutBuilder::new();builder.add(&Layout::of::<",
-            "let builder=fields.iter().try_fold(builder,|mut b,t|{let layout=self.layout_of(*t,rt)?;b.add(&layout);Some(b)});",
-            "let Some(builder)=builder else{continue;};",
-            "let variant_layout=builder.finish();",
-            "layout=Some(layout.map_or(variant_layout.clone(),|l:Layout|{l.union(&variant_layout)}),);}layout?}",
+            "for(_,fields)in variants{let mut builder=LayoutBuilder::new();builder.add(&Layout::of::<",
             "Ty::List(_)=>Layout::of::<ErasedList>(),",
             "Some(layout)",
         ],
         "Pool::layout_of",
     )?;
+    {
+        // the enum arm: fields added after the tag until one has no layout (then the variant is
+        // skipped), as a `try_fold` or as a loop with a flag; the running union through `map_or`
+        // or through a `match`
+        let mut alts = vec![];
+        for annotated in [false, true] {
+            for fold in [true, false] {
+                for map_or in [true, false] {
+                    let mut v = vec![format!(
+                        "Ty::Enum(variants)=>{{let mut layout{}=None;for(_,fields)in variants{{let mut builder=LayoutBuilder::new();builder.add(&Layout::of::<",
+                        if annotated { ":Option<Layout>" } else { "" }
+                    )];
+                    if fold {
+                        v.push("let builder=fields.iter().try_fold(builder,|mut __P_b,__P_t|{let __P_l_S=self.layout_of(*__P_t,rt)?;__P_b.add(&__P_l_S);Some(__P_b)});".to_string());
+                        v.push("let Some(builder)=builder else{continue;};".to_string());
+                    } else {
+                        v.push("let mut __P_inh=true;for __P_t in fields.iter(){match self.layout_of(*__P_t,rt){Some(__P_fl)=>{builder.add(&__P_fl);}None=>{__P_inh=false;break;}}}".to_string());
+                        v.push("if!__P_inh{continue;}".to_string());
+                    }
+                    v.push("let variant_layout=builder.finish();".to_string());
+                    v.push(if map_or {
+                        "layout=Some(layout.map_or(variant_layout.clone(),|__P_u:Layout|{__P_u.union(&variant_layout)}),);}layout?}".to_string()
+                    } else {
+                        "layout=Some(match layout{None=>variant_layout.clone(),Some(__P_u)=>__P_u.union(&variant_layout),});}layout?}".to_string()
+                    });
+                    alts.push(v);
+                }
+            }
+        }
+        any_alt(&text(&f.block), &alts, "Pool::layout_of (enum arm)")?;
+    }
     // the tag layout: the argument of the first `builder.add(&…)` of the enum arm / of `location`
     let tag_of = |text: &str, before: &str, what: &str| -> R {
         let key = strip(before);
@@ -641,13 +799,13 @@ fn boundary(repo: &Path) -> R {
     // Lowerer::location: the `VariantField` loop
     let floc = find::func(&lower, "location", Some("Lowerer"))?;
     let bl = toks(&floc.block);
-    in_order(
-        &bl,
+    in_order_pat(
+        &text(&floc.block),
         &[
             "mir::Projection::VariantField(variant_name,n)=>{let Ty::Enum(variants)=self.ctx.type_info.ty_pool.get(ty)else{ice!()};let mut builder=LayoutBuilder::new();builder.add(&Layout::of::<",
             "let variant=variants.iter().find(|v|v.0==variant_name).unwrap();",
-            "let mut last_ty=None;let mut new_offset=0;for&field_ty in variant.1.iter().take(n+1){new_offset=builder.add(&self.layout_of(field_ty)?);last_ty=Some(field_ty);}",
-            "ty=last_ty.unwrap();offset+=new_offset;",
+            "let mut __P_last=None;let mut __P_off=0;for&__P_fty in variant.1.iter().take(n+1){__P_off=builder.add(&self.layout_of(__P_fty)?);__P_last=Some(__P_fty);}",
+            "ty=__P_last.unwrap();offset+=__P_off;",
             "Some(Location::Pointer{base,offset})",
         ],
         "Lowerer::location",
@@ -701,13 +859,23 @@ fn boundary(repo: &Path) -> R {
             "let layout=self.layout_of(return_type).unwrap_or_else(||Layout::new(0,1));let out_ptr=self.new_stack_slot(layout);",
             "args.push(Operand::Place(out_ptr.clone()));parameters.push((\"ret\".into(),IrType::Pointer));",
             "args.push(base.into());parameters.push((format!(\"vtable_{i}\").into(),IrType::Pointer));",
-            "if!dyn_vals[i]{let Some(ty)=self.lower_type(ty)else{continue;};args.push(arg.into());parameters.push((i.to_string().into(),ty));continue;}",
             "let ir_signature=Signature{parameters,context:false,return_ptr:true,return_type:None,};",
             "self.emit(Instruction::CallRuntime{func:func_ref,args,});",
             "if self.is_reference_type(return_type)?{Some(out_ptr.into())}else{let ty=self.lower_type(return_type)?;let tmp=self.new_tmp(ty);self.emit_read(tmp.clone(),out_ptr.into(),ty);Some(tmp.into())}",
         ],
         "Lowerer::call_runtime",
     )?;
+    {
+        let plain = "{let Some(__P_irty_S)=self.lower_type(ty)else{continue;};args.push(arg.into());parameters.push((i.to_string().into(),__P_irty_S));continue;}";
+        any_alt(
+            &text(&f.block),
+            &[
+                vec![format!("if!dyn_vals[i]{plain}")],
+                vec!["let __P_dyn=dyn_vals[i];".to_string(), format!("if!__P_dyn{plain}")],
+            ],
+            "Lowerer::call_runtime (arguments that are no DynVal)",
+        )?;
+    }
     o.push_str("/-- arguments of a call to a registered function: out pointer, vtables, then the arguments whose `lower_type` is `Some` -/\ndef callRuntimeSlots : List Slot := [.retPtr, .vtables, .params]\ndef callRuntimeArgFilter : ArgFilter := .lowerType\n");
 
     // ----------------------------------------------------------- codegen/mod.rs
@@ -821,14 +989,42 @@ fn boundary(repo: &Path) -> R {
             "let mut transformed=($(<$a as Value>::transform($a),)*);",
             "let($($a,)*)=($(<$a as Value>::as_param($a),)*);",
             "std::mem::forget(transformed);",
-            "if return_by_ref{let func_ptr=unsafe{std::mem::transmute::<*const u8,Self::RotoWithReturnPointer>(func_ptr)};",
-            "func_ptr(ret.as_mut_ptr(),ctx as*mut Ctx as*mut(),$($a),*);",
-            "let transformed_ret=unsafe{ret.assume_init()};let ret:Self::Return=Self::Return::untransform(transformed_ret);ret}",
-            "else{let func_ptr=unsafe{std::mem::transmute::<*const u8,Self::RotoWithoutReturnPointer>(func_ptr)};",
-            "let ret=func_ptr(ctx as*mut Ctx as*mut(),$($a),*);<R as Value>::untransform(ret)}",
         ],
         "func!",
     )?;
+    {
+        // the call through the transmuted pointer: the context cast inline or hoisted into a
+        // local, the result untransformed through `Self::Return` (= `R` in this impl) or `R`
+        let mut alts = vec![];
+        for ctx_local in [false, true] {
+            for direct in [false, true] {
+                let ctx = if ctx_local { "__P_ctx" } else { "ctx as*mut Ctx as*mut()" };
+                let mut v = vec![];
+                if ctx_local {
+                    v.push("let __P_ctx=ctx as*mut Ctx as*mut();".to_string());
+                }
+                v.push("if return_by_ref{let __P_f_S=unsafe{std::mem::transmute::<*const u8,Self::RotoWithReturnPointer>(func_ptr)};".to_string());
+                v.push(format!("__P_f_S(ret.as_mut_ptr(),{ctx},$($a),*);"));
+                v.push(if direct {
+                    "let __P_tr=unsafe{ret.assume_init()};<R as Value>::untransform(__P_tr)}".to_string()
+                } else {
+                    "let __P_tr=unsafe{ret.assume_init()};let __P_ret_S:Self::Return=Self::Return::untransform(__P_tr);__P_ret_S}".to_string()
+                });
+                v.push("else{let __P_g_S=unsafe{std::mem::transmute::<*const u8,Self::RotoWithoutReturnPointer>(func_ptr)};".to_string());
+                v.push(format!("let __P_r2_S=__P_g_S({ctx},$($a),*);<R as Value>::untransform(__P_r2_S)}}"));
+                alts.push(v);
+            }
+        }
+        let def_text = ck
+            .items
+            .iter()
+            .find_map(|item| match item {
+                syn::Item::Macro(m) if m.ident.as_ref().is_some_and(|i| i == "func") => Some(m.mac.tokens.to_string()),
+                _ => None,
+            })
+            .ok_or("macro_rules! func not found")?;
+        any_alt(&def_text, &alts, "func! (call through the transmuted pointer)")?;
+    }
     o.push_str(&format!(
         "def rustWithReturnPointer : List Slot := [.retPtr, .ctx, .params]\ndef rustWithReturnPointerRet : RetSlot := .nothing\ndef rustWithoutReturnPointer : List Slot := [.ctx, .params]\ndef rustWithoutReturnPointerRet : RetSlot := .transformed\ndef funcArities : List Nat := {}\n",
         lean_list(&arities)
@@ -852,21 +1048,25 @@ fn boundary(repo: &Path) -> R {
                 &id,
             )?;
             if id == "registerable_fn" {
-                in_order(
-                    &d,
+                // names of the inner function, its closure parameter and its locals are free;
+                // the closure reference may be bound to a local before the call
+                let head = "extern\"C\"fn __P_tramp<$($a:Value,)*$r:Value>(__P_x:*const impl Fn($($a,)*)->$r,out:*mut$r::Transformed,$($a:$a::AsParam),*)->(){";
+                let args = "($(<$a as Value>::untransform(<$a as Value>::to_value($a)),)*);";
+                let tail = "let __P_rt=<$r as Value>::transform(__P_res);unsafe{std::ptr::write(out,__P_rt)};}__P_tramp}";
+                any_alt(
+                    &m.mac.tokens.to_string(),
                     &[
-                        "extern\"C\"fn foo<$($a:Value,)*$r:Value>(x:*const impl Fn($($a,)*)->$r,out:*mut$r::Transformed,$($a:$a::AsParam),*)->(){",
-                        "let res=(unsafe{&*x})($(<$a as Value>::untransform(<$a as Value>::to_value($a)),)*);",
-                        "let res_transformed=<$r as Value>::transform(res);unsafe{std::ptr::write(out,res_transformed)};",
+                        vec![head.to_string(), format!("let __P_res=(unsafe{{&*__P_x}}){args}"), tail.to_string()],
+                        vec![head.to_string(), format!("let __P_f_S=unsafe{{&*__P_x}};let __P_res=__P_f_S{args}"), tail.to_string()],
                     ],
                     &id,
                 )?;
             } else {
-                in_order(
-                    &d,
+                in_order_pat(
+                    &m.mac.tokens.to_string(),
                     &[
-                        "extern\"C\"fn foo<$($a:Value,)*$r:Value>(x:*const impl Fn(OutPtr<$r>,$($a,)*),out:*mut$r::Transformed,$($a:$a::AsParam),*)->(){",
-                        "(unsafe{&*x})(OutPtr{ptr:out},$(<$a as Value>::untransform(<$a as Value>::to_value($a)),)*);",
+                        "extern\"C\"fn __P_tramp<$($a:Value,)*$r:Value>(__P_x:*const impl Fn(OutPtr<$r>,$($a,)*),out:*mut$r::Transformed,$($a:$a::AsParam),*)->(){",
+                        "(unsafe{&*__P_x})(OutPtr{ptr:out},$(<$a as Value>::untransform(<$a as Value>::to_value($a)),)*);}__P_tramp}",
                     ],
                     &id,
                 )?;
